@@ -546,7 +546,13 @@ pub struct Simple {
     pub name: Option<u8>,
     pub args: Vec<Vec<W>>,
     pub redirs: Vec<Redir>,
+    /// the command name is this reserved word, which is possible only when a redirection comes
+    /// first (`>f done x`); assignments are dropped in that case
+    #[serde(default)]
+    pub kw: Option<u8>,
 }
+
+const KW_NAMES: [&str; 14] = ["done", "fi", "then", "esac", "}", "if", "!", "{", "do", "elif", "else", "while", "case", "in"];
 
 #[derive(Clone, Debug, PartialEq, Eq, Hash, Serialize, Deserialize)]
 pub struct CaseItem {
@@ -590,6 +596,22 @@ fn dq_escape(s: &str, out: &mut String) {
 
 fn render_simple(s: &Simple) -> String {
     let mut parts: Vec<String> = vec![];
+    if let Some(k) = s.kw {
+        if s.redirs.is_empty() {
+            parts.push(">/dev/null".to_string());
+        }
+        for r in &s.redirs {
+            parts.push(render_redir(r));
+        }
+        parts.push(KW_NAMES[k as usize % KW_NAMES.len()].to_string());
+        for a in &s.args {
+            let t = render_word(a);
+            if !t.is_empty() {
+                parts.push(t);
+            }
+        }
+        return parts.join(" ");
+    }
     for (n, w) in &s.assigns {
         parts.push(format!("v{}={}", n % 4 + 1, render_word(w)));
     }
@@ -1347,8 +1369,9 @@ fn arb_simple(depth: u32) -> BoxedStrategy<Simple> {
         prop::option::weighted(0.9, 0u8..4),
         prop::collection::vec(arb_word(depth), 0..=3),
         prop::collection::vec(arb_redir(depth), 0..=1),
+        prop::option::weighted(0.06, 0u8..14),
     )
-        .prop_map(|(assigns, name, args, redirs)| Simple { assigns, name, args, redirs })
+        .prop_map(|(assigns, name, args, redirs, kw)| Simple { assigns, name, args, redirs, kw })
         .boxed()
 }
 
